@@ -24,6 +24,7 @@ import os, re
 from . import common as C
 from . import e2gen as G
 
+PARAM_SECTIONS = ["oracle"]
 MODEL_TARGETS = ["theories/Conc/CommitSeq.vo", "theories/Spec/Machine.vo", "theories/Codec/WalInst.vo", "theories/Lsm/CompactKey.vo"]  # everything driver/Extract.v imports
 TRUSTED = ["the model's fingerprint function is an injective table over the key strings of a script (driver/main.ml fp_of); the crate "
            "uses xxh3_64: agreement is expected unless xxh3_64 collides on a script's keys (soundness theorems hold for any fp)",
